@@ -13,6 +13,7 @@ RULES = {
     "C09.R4": "packing typestate: QBitsTensor.__init__ stores a packed payload on every path; create() forwards all its arguments in order",
     "C09.R6": "lifecycle ops keep the tensor: the detach and _to_copy handlers (run by Parameter(), freeze and Module.to on a frozen weight) rebuild with the source's own qtype, axis, group size, size and stride, and pass payload / scale / zero-point through the op only",
     "C09.R7": "compact storage: the packer every frozen low-bit weight goes through stores ceil(rows x bits / 8) payload rows for every row count (rules C04.R2/R3), and the 8-bit detach/move handlers that Parameter(), freeze and Module.to run keep payload and scale through the op only (rules of C05.R5)",
+    "C09.R10": "what a twin exposes is what it computes with: until freeze() the `weight` attribute of a twin is the float tensor while its forward uses the quantized one, so a parent that reads a child's weight directly (nn.MultiheadAttention with out_proj, the fast path of TransformerEncoderLayer) computes with float weights before freeze and quantized ones after",
     "C09.R9": "a calibrated model can be copied: every value stored into the input_scale / output_scale buffers is detached from the graph it was computed in (a non-leaf tensor that requires grad makes copy.deepcopy of the model raise, and keeps the graph of the calibration batch alive)",
     "C09.R8": "copies keep behaving: a qtype is a value object (a dataclass that deepcopy duplicates), so qtypes are compared with == / in, never with `is` (identity holds for the library's singletons only until a frozen model is copied)",
     "C09.R5": "lifecycle ops: every class that can be a frozen weight has handlers for detach (Parameter), _to_copy (.to) and clone (deepcopy)",
@@ -77,6 +78,7 @@ def run(chk):
     lifecycle(chk)
     qtype_identity(chk)
     detached_scales(chk)
+    exposed_weight(chk)
     from .c06 import moves_rule
     moves_rule(chk, r2="C09.R6", r4="C09.R6")
     from ..report import AliasedCheck
@@ -271,3 +273,15 @@ def detached_scales(chk):
                         chk.require("C09.R9", f"{mi.rel}:{ef[4]}", det or nograd or factory, f"{fn.name}: `{U(ef[1])}.{ef[2]} = {U(v)[:70]}` carries no autograd history (detached={det}, no_grad={nograd})", fn.name, f"{ef[2]} stored with its graph",
                                     "quantize(model, activations=qint8); with Calibration(): model(x) (no torch.no_grad()); copy.deepcopy(model) raises `Only Tensors created explicitly by the user support the deepcopy protocol`")
     chk.floor("C09.R9", n, 3, "stores into the activation-scale buffers")
+
+
+def exposed_weight(chk):
+    repo = chk.repo
+    mixin = repo.cls("QModuleMixin")
+    qw = mixin.own("qweight")
+    dynamic = qw is not None and any(isinstance(x, ast.Call) and U(x.func) == "quantize_weight" for x in ast.walk(qw))
+    # the float weight stays under `weight` until freeze() (freeze is the only writer: C09.R1)
+    fz = mixin.own("freeze")
+    writes_weight = fz is not None and any(isinstance(x, ast.Attribute) and x.attr == "weight" and isinstance(x.ctx, ast.Store) for x in ast.walk(fz))
+    chk.require("C09.R10", f"{mixin.mod.rel}:{qw.lineno if qw else mixin.node.lineno}", not (dynamic and writes_weight), "an unfrozen twin exposes under `weight` the tensor its forward computes with", "QModuleMixin.qweight", "unfrozen twin exposes the float weight",
+                "Sequential(attn=nn.MultiheadAttention(16, 2)) quantized to qint8: the parent reads out_proj.weight directly, so the outputs before and after freeze() differ by 2.2e-3 (TransformerEncoderLayer(32, 4, 64).eval(): 4.8e-3)")
